@@ -290,10 +290,18 @@ def run(ctx, extra_defs=()):
     ctx.stats['handler_tokens'] = nh
 
     # ---- R7 pool
-    sw = [i for i in wk.calls() if q.short_of(wk.callee(i)) == 'swap']
-    pop = q.field_calls(wk, 'thread_pool::queue_', 'pop_front')
-    ctx.check(len(sw) == 1 and len(pop) == 1 and wk.point_of(sw[0])[0] == wk.point_of(pop[0])[0] and bool(jobs), R7,
-              'worker:swap-out-and-pop-together', 'job not removed from the queue on the path that takes it', wk.where)
+    # the job is taken in worker() itself or in a helper of the pool that worker() calls
+    wq = wk
+    if not q.field_calls(wk, 'thread_pool::queue_', 'pop_front'):
+        for c_ in wk.calls():
+            g_ = P.fns.get(wk.N(c_).get('callee'))
+            if g_ is not None and g_.record == wk.record and g_.entry is not None and q.field_calls(g_, 'thread_pool::queue_', 'pop_front'):
+                wq = g_
+                break
+    sw = [i for i in wq.calls() if q.short_of(wq.callee(i)) == 'swap']
+    pop = q.field_calls(wq, 'thread_pool::queue_', 'pop_front')
+    ctx.check(len(sw) == 1 and len(pop) == 1 and wq.point_of(sw[0])[0] == wq.point_of(pop[0])[0] and bool(jobs), R7,
+              'worker:swap-out-and-pop-together', 'job not removed from the queue on the path that takes it', wq.where)
     if jobs:
         trys = [a for a in wk.ancestors(jobs[0]) if wk.N(a)['k'] == 'CXXTryStmt']
         okc = bool(trys) and any(wk.N(h).get('ctype') == '...' for h in wk.N(trys[0])['handlers'])
@@ -450,28 +458,86 @@ def run(ctx, extra_defs=()):
                         okc = top['k'] == 'BinaryOperator' and top.get('op') == '%' and rnd.const_value(top['ch'][1]) == M
     ctx.check(okc, R11, 'rand:result-below-limit', 'rand(limit) is not (x % M) * limit / M with one constant M: its result is not known to stay below limit', rnd.where)
     lps = q.loops(rz)
-    cl = q.counting_loop(rz, lps[0]) if len(lps) == 1 else None
-    ctx.check(cl is not None and cl['start'] == 0 and cl['step'] == 1 and cl['op'] == '<', R11, 'randomize_events:loop-i-from-0-below-n', 'shuffle loop shape not recognised', rz.where)
-    if cl is not None:
+    ctx.check(len(lps) == 1, R11, 'randomize_events:single-loop', 'shuffle loop not found', rz.where)
+    if len(lps) == 1:
+        L = lps[0]
+        Ln = rz.N(L)
         S = _lin.Symb(rz)
-        I = _Lin.atom(cl['var'])
-        Nn = S.lin(cl['bound'])
-        cons = [_ge(I), _ge(Nn - I - _Lin.const(1))]
-        for j in rz.walk(rz.N(lps[0])['body']):
-            if rz.N(j)['k'] == 'DeclStmt':
+        evp, np_ = q.param_by_index(rz, 0), q.param_by_index(rz, 1)
+        EV, Nn = _Lin.atom(evp), _Lin.atom(np_)
+        # induction variables: changed in the loop only by one +-1 step per iteration; initial value from the for-init or the single earlier definition
+        ind = {}
+        for v in set(r for r in rz.subtree_refs(L) if r.startswith('v:')):
+            ws = [w for w in q.writes_to(rz, v, L) if not (Ln.get('init', -1) is not None and Ln.get('init', -1) >= 0 and rz.contains(Ln['init'], w))]
+            # a call that receives *v or v[k] by reference changes the pointee, not the variable itself
+            ws = [w for w in ws if not (rz.N(w)['k'] in model.CALL_KINDS and not any(rz.ref_of(a_) == v for a_ in rz.args(w)))]
+            if len(ws) != 1:
+                continue
+            w = ws[0]
+            m = rz.N(w)
+            step = None
+            if m['k'] == 'UnaryOperator' and m.get('op') in ('++', '--'):
+                step = 1 if m['op'] == '++' else -1
+            elif m['k'] == 'CompoundAssignOperator' and m.get('op') in ('+=', '-=') and rz.const_value(m['ch'][1]) == 1:
+                step = 1 if m['op'] == '+=' else -1
+            if step is None:
+                continue
+            in_inc = Ln['k'] == 'ForStmt' and Ln.get('inc', -1) is not None and Ln.get('inc', -1) >= 0 and rz.contains(Ln['inc'], w)
+            if not in_inc and ([a_ for a_ in rz.ancestors(w) if rz.contains(Ln['body'], a_) and rz.N(a_)['k'] in ('IfStmt', 'SwitchStmt', 'ForStmt', 'WhileStmt', 'DoStmt', 'ConditionalOperator')] or
+                               [j for j in rz.walk(Ln['body']) if rz.N(j)['k'] == 'ContinueStmt']):
+                continue
+            start = None
+            init = Ln.get('init', -1) if Ln['k'] == 'ForStmt' else -1
+            if init is not None and init >= 0:
+                i0 = rz.N(rz.strip(init))
+                if i0['k'] == 'DeclStmt':
+                    for d in i0['decls']:
+                        if d['ref'] == v and d.get('init') is not None:
+                            start = d['init']
+                elif i0['k'] == 'BinaryOperator' and i0.get('op') == '=' and rz.ref_of(i0['ch'][0]) == v:
+                    start = i0['ch'][1]
+            if start is None:
+                outside = [(d_, v_) for (d_, v_) in rz.defs_of_var(v) if not rz.contains(L, d_)]
+                if len(outside) == 1 and outside[0][1] is not None:
+                    start = outside[0][1]
+            if start is not None:
+                ind[v] = (step, S.lin(start), in_inc)
+        ctx.check(bool(ind), R11, 'randomize_events:induction-variables', 'no loop counter recognised in the shuffle', rz.loc(L))
+        cons = [_ge(Nn - _Lin.const(2))] if [r for r in rz.returns()] or True else []
+        # loop condition, steps so far k >= 0: v = start + step*k for every induction variable (lock-step invariant)
+        K = _Lin.atom('#iterations')
+        cons.append(_ge(K))
+        for v, (step, st, _) in ind.items():
+            cons.append(_lin.eq(_Lin.atom(v) - st - K.scale(step)))
+        if Ln.get('cond', -1) is not None and Ln.get('cond', -1) >= 0:
+            cons += S.rel(Ln['cond'], True) or []
+        # the guard n >= 2 (either an early return or an enclosing if)
+        for j in rz.all_nodes():
+            if rz.N(j)['k'] == 'DeclStmt' and rz.contains(Ln['body'], j):
                 for d in rz.N(j)['decls']:
                     if d.get('init') is not None:
                         c = [x for x in rz.calls(d['init']) if rz.N(x).get('callee') == rnd.id]
-                        if len(c) == 1 and rz.strip(d['init']) == c[0] or (c and rz.strip(rz.N(rz.strip(d['init']))['ch'][0] if rz.N(rz.strip(d['init']))['ch'] else d['init']) == c[0]):
+                        if len(c) == 1:
                             arg = S.lin(rz.args(c[0])[0])
                             V = _Lin.atom(d['ref'])
                             cons += [_ge(V), _ge(arg - _Lin.const(1) - V)]
-        subs = [j for j in rz.walk(rz.N(lps[0])['body']) if rz.N(j)['k'] == 'ArraySubscriptExpr']
+
+        def elem_index(j):
+            """index into evs of an element access: evs[e], p[e], *p with p an induction pointer started at evs (+ offset)"""
+            n = rz.N(j)
+            if n['k'] == 'ArraySubscriptExpr':
+                base, idx = S.lin(n['ch'][0]), S.lin(n['ch'][1])
+            elif n['k'] == 'UnaryOperator' and n.get('op') == '*':
+                base, idx = S.lin(n['ch'][0]), _Lin.const(0)
+            else:
+                return None
+            return base - EV + idx
+        subs = [j for j in rz.walk(Ln['body']) if rz.N(j)['k'] == 'ArraySubscriptExpr' or (rz.N(j)['k'] == 'UnaryOperator' and rz.N(j).get('op') == '*')]
         ctx.check(len(subs) >= 2, R11, 'randomize_events:subscripts', 'no element accesses in the shuffle', rz.where)
         for k, j in enumerate(subs):
-            idx = S.lin(rz.N(j)['ch'][1])
-            ok = _lin.implies(cons, _ge(idx)) and _lin.implies(cons, _ge(Nn - idx - _Lin.const(1)))
-            ctx.check(ok, R11, 'randomize_events:evs[%s]:inside-0..n' % repr(idx), 'the shuffle can touch evs[n] or beyond: a stale record of an earlier poll is treated as a fresh event', rz.loc(j), detail={'index': repr(idx), 'facts': [repr(c_[1]) for c_ in cons]})
+            idx = elem_index(j)
+            ok = idx is not None and _lin.implies(cons, _ge(idx)) and _lin.implies(cons, _ge(Nn - idx - _Lin.const(1)))
+            ctx.check(ok, R11, 'randomize_events:access#%d:inside-0..n' % k, 'the shuffle can touch evs[n] or beyond: a stale record of an earlier poll is treated as a fresh event', rz.loc(j), detail={'index': repr(idx), 'facts': [repr(c_[1]) for c_ in cons]})
     ctx.floor(R1, 80)
     ctx.floor(R2, 7)
     ctx.floor(R3, 9)
